@@ -9,6 +9,9 @@ use crate::common::utils::extract_host_from_address;
 use crate::protocol::{Array, BulkStr, RedisClientFactory, Resp, RespVec};
 use crate::proxy::cluster::ClusterMetaError;
 use itertools::Either;
+#[cfg(undermoon_verif)]
+use crate::common::verif::sync::RwLock;
+#[cfg(not(undermoon_verif))]
 use parking_lot::RwLock;
 use std::collections::HashMap;
 use std::sync::{atomic, Arc};
